@@ -374,6 +374,9 @@ def serialized_key_rule(ctx, rule):
 
 def run(ctx):
     serialized_key_rule(ctx, "R2.element-written-under-its-key")
+    # the text flavour is read from and written to text streams, the binary flavour to binary ones - wrappers included
+    from .C12 import file_mode_rules
+    file_mode_rules(ctx, "R2")
     # the functions that read a parsed file (get_sequence, get_structure, ..) leave its string tables as they are: an array handed out by
     # as_array(str) may be the column's own data
     from ..lints import caller_arguments_untouched
